@@ -93,12 +93,18 @@ pub(crate) fn files_field(rng: &mut Rng, nfiles: usize, max_len: usize) -> Strin
         } else {
             path.extend_from_slice(&file_name(rng, i));
         }
-        let n = match rng.below(6) {
+        let mut n = match rng.below(6) {
             0 => 0,
             1 => *rng.pick(&boundary_lengths(rng.clone().below(4) as usize)),
             2 => rng.range(0, 300) as usize,
             _ => rng.range(0, max_len as u64) as usize,
         };
+        if i > 0 && rng.chance(1, 3) {
+            // the same LENGTH as an earlier file (with the same base name now and then): name and
+            // size do not identify a content
+            let prev: &String = &parts[rng.below(parts.len() as u64) as usize];
+            n = prev.split(':').nth(1).map(|c| if c == "-" { 0 } else { c.len() / 2 }).unwrap_or(n);
+        }
         let c = content(rng, n);
         parts.push(format!("{}:{}", hex(&path), hex(&c)));
     }
@@ -428,6 +434,30 @@ fn with_files<R>(field: &str, f: impl FnOnce(&[&str]) -> R) -> Option<R> {
             let full = dir.path().join(&rel);
             if let Some(parent) = full.parent() {
                 std::fs::create_dir_all(parent).ok()?;
+            }
+            // every fourth path (by a hash of the relative name) is a symbolic link — absolute or
+            // relative — to the file that holds the content: what is listed is the content a read of
+            // the path returns, not what the link itself measures
+            let hsh = rel.bytes().fold(0xcbf29ce484222325u64, |h, b| (h ^ b as u64).wrapping_mul(0x100000001b3));
+            #[cfg(unix)]
+            if hsh % 4 == 0 {
+                let store = dir.path().join(format!(".store{}", paths.len()));
+                std::fs::write(&store, &content).ok()?;
+                let target = if hsh % 8 == 0 {
+                    store.clone()
+                } else {
+                    // relative to the link's directory
+                    let depth = rel.matches('/').count();
+                    let mut t = std::path::PathBuf::new();
+                    for _ in 0..depth {
+                        t.push("..");
+                    }
+                    t.push(store.file_name()?);
+                    t
+                };
+                std::os::unix::fs::symlink(&target, &full).ok()?;
+                paths.push(full.to_str()?.to_string());
+                continue;
             }
             std::fs::write(&full, &content).ok()?;
             paths.push(full.to_str()?.to_string());
